@@ -551,6 +551,9 @@ def run_grain(case):
     dist, zl, grid, it, horizon = case['dist'], case['z'], case['grid'], case['it'], case['horizon']
     viol, seen = [], set()
     tag = 'dist=%s z=%s grid=%s it=%s horizon=%g' % (dist, zl, grid, it, horizon)
+    alpha = case.get('alpha')
+    if alpha is not None:
+        tag += ' alpha=%g' % alpha
 
     def bad(sig, msg):
         sig = 'grain/' + sig
@@ -560,6 +563,8 @@ def run_grain(case):
 
     cmin, cmax, bins, minb, maxb = GRIDS[grid]
     g = GrainGrowthModel(cmin, cmax, bins, minb, maxb, solverType=SolverType.RK4 if it == 'rk4' else SolverType.EXPLICITEULER)
+    if alpha is not None:
+        g.setAlpha(alpha)          # the fitting factor scales curvature term and drag alike: the freezing drag does not depend on it
     g.LoadDistributionFunction(_dist(dist, cmin, cmax))
     obs = _GrainObserver(4000)
     g.addCouplingModel(obs)
@@ -913,6 +918,9 @@ def run(ctx):
                 for it in ['rk4', 'euler']:
                     for horizon, calls in ([(0.3, 1), (1.0, 2)] if quick else [(0.3, 1), (1.0, 2), (3.0, 3)]):
                         gcases.append({'dist': dist, 'z': zl, 'grid': grid, 'it': it, 'horizon': horizon, 'calls': calls})
+                        if grid == 'g40' and calls == 1:
+                            for alpha in (4.0, 0.25):
+                                gcases.append({'dist': dist, 'z': zl, 'grid': grid, 'it': it, 'horizon': horizon, 'calls': calls, 'alpha': alpha})
                         if zl in ('zero', 'small') and calls == 1:
                             for reuse in ('reset', 'reload'):
                                 gcases.append({'dist': dist, 'z': zl, 'grid': grid, 'it': it, 'horizon': horizon, 'calls': calls, 'reuse': reuse})
